@@ -437,6 +437,20 @@ def line_access():
     return acc
 
 
+def state_key(run):
+    """the complete state of one execution, for the stateful search: every thread's Python stack (code,
+    bytecode offset, plain locals), the shared objects, and the harness's own bookkeeping"""
+    sc = run.sched
+    lock = run.conn._sendlock
+    return (tuple(sc.signature(t) for t in sc.order),
+            tuple(run.ident(x) for x in list.__iter__(run.conn._send_queue)),
+            (lock.held, lock.owner, lock.count),
+            run.next_lt, tuple(sorted(run.fired)), tuple(len(run.call_order[t]) for t in range(run.n_os)),
+            tuple(tuple(run.lstack[t]) for t in range(run.n_os)),
+            tuple(sorted(run.writes_since_pop.items())), tuple(sorted((k, str(v)) for k, v in run.cur_id.items())),
+            None if run.hand is None else (str(run.hand[0]), run.hand[1]), len(run.errors))
+
+
 def skip_line(code, lineno):
     a = line_access().get(lineno, None)
     return a is not None and len(a) == 0
@@ -463,33 +477,42 @@ def new_run(c):
     return Run([[tuple(m) for m in p] for p in c["progs"]], [(t, k, w, tuple(m)) for (t, k, w, m) in c["reent"]])
 
 
+C_2x1 = cfg([[(1, False)], [(2, False)]])
+C_2x1_BIG = cfg([[(1, True)], [(2, False)]])
+C_2x12 = cfg([[(1, False)], [(2, False), (3, False)]])
+C_2x1_RB = cfg([[(1, False)], [(2, False)]], [(1, 0, "b", (9, False))])
+C_2x1_RA = cfg([[(1, False)], [(2, False)]], [(2, 0, "a", (9, False))])
+C_1x1_NESTED = cfg([[(1, True)]], [(1, 1, "b", (9, False)), (9, 0, "a", (8, False))])
+C_2x2 = cfg([[(1, False), (2, False)], [(3, False), (4, False)]])
+C_2x2_BIG = cfg([[(1, True), (2, False)], [(3, False), (4, True)]])
+C_2x12_R = cfg([[(1, False)], [(2, True), (3, False)]], [(2, 1, "b", (9, False))])
+C_2x3 = cfg([[(1, False), (2, False), (3, False)], [(4, False), (5, False), (6, False)]])
+C_3x1 = cfg([[(1, False)], [(2, False)], [(3, False)]])
+C_3x121 = cfg([[(1, False)], [(2, False), (3, True)], [(4, False)]])
+C_3x222_R = cfg([[(1, False), (2, False)], [(3, True), (4, False)], [(5, False), (6, False)]], [(3, 0, "a", (9, False))])
+
+
 def quick_exhaustive():
-    return [
-        ("2x1", cfg([[(1, False)], [(2, False)]])),
-        ("2x1-big", cfg([[(1, True)], [(2, False)]])),
-        ("2x(1,2)", cfg([[(1, False)], [(2, False), (3, False)]])),
-        ("2x1+reentrant-before-write", cfg([[(1, False)], [(2, False)]], [(1, 0, "b", (9, False))])),
-        ("2x1+reentrant-after-write", cfg([[(1, False)], [(2, False)]], [(2, 0, "a", (9, False))])),
-        ("1x1-big+reentrant-mid-packet", cfg([[(1, True)]], [(1, 1, "b", (9, False)), (9, 0, "a", (8, False))])),
-    ]
+    """explored path by path: EVERY interleaving (up to the order of independent steps)"""
+    return [("2x1", C_2x1), ("2x1-big", C_2x1_BIG), ("2x(1,2)", C_2x12),
+            ("2x1+reentrant-before-write", C_2x1_RB), ("1x1-big+reentrant-mid-packet-twice", C_1x1_NESTED)]
 
 
 def thorough_exhaustive():
-    return [
-        ("2x2", cfg([[(1, False), (2, False)], [(3, False), (4, False)]])),
-        ("2x2-big", cfg([[(1, True), (2, False)], [(3, False), (4, True)]])),
-        ("2x(1,2)+reentrant", cfg([[(1, False)], [(2, True), (3, False)]], [(2, 1, "b", (9, False))])),
-        ("2x3", cfg([[(1, False), (2, False), (3, False)], [(4, False), (5, False), (6, False)]])),
-    ]
+    return [("2x1+reentrant-after-write", C_2x1_RA), ("2x(1,2)-big+reentrant-mid-packet", C_2x12_R)]
+
+
+def quick_stateful():
+    """explored state by state: every reachable state expanded once, every transition executed"""
+    return [("2x1+reentrant-after-write", C_2x1_RA), ("2x2", C_2x2), ("2x(1,2)-big+reentrant-mid-packet", C_2x12_R)]
+
+
+def thorough_stateful():
+    return [("2x2-big", C_2x2_BIG), ("2x3", C_2x3), ("3x1", C_3x1), ("3x(1,2,1)", C_3x121)]
 
 
 def bounded_configs():
-    return [
-        ("3x1", cfg([[(1, False)], [(2, False)], [(3, False)]])),
-        ("3x(1,2,1)", cfg([[(1, False)], [(2, False), (3, True)], [(4, False)]])),
-        ("3x(2,2,2)+reentrant", cfg([[(1, False), (2, False)], [(3, True), (4, False)], [(5, False), (6, False)]],
-                                    [(3, 0, "a", (9, False))])),
-    ]
+    return [("3x1", C_3x1), ("3x(1,2,1)", C_3x121), ("3x(2,2,2)+reentrant", C_3x222_R)]
 
 
 def random_config(r, with_reent):
@@ -581,11 +604,12 @@ def thread_of(tok):
     return tok[1:i]
 
 
-def explore_dfs(batch, family, conf, bound=None, max_runs=None, deadline=None):
+def explore_dfs(batch, family, conf, bound=None, max_runs=None, deadline=None, stateful=False):
     """returns (number of schedules, completed?)"""
     n = 0
     complete = True
-    gen = S.dfs(lambda: new_run(conf), access=access, preemption_bound=bound, max_runs=max_runs, max_steps=MAX_STEPS)
+    gen = S.dfs(lambda: new_run(conf), access=access, preemption_bound=bound, max_runs=max_runs, max_steps=MAX_STEPS,
+                state_key=state_key if stateful else None)
     for run, res in gen:
         try:
             batch.add(family, conf, run, res)
@@ -646,9 +670,13 @@ def correspondence(ctx):
     c.rule = ("Schedules of the real Connection._send on real threads under the line-level scheduler; each schedule's "
               "logged shared actions are a trace the Lean model must accept step by step with equal results, and the "
               "final facts (stuck, all returned, queue, lock, hand, packets the real Channel.recv reads off the wire, "
-              "per-thread order) must agree. Families: exhaustive DFS with replay over ALL interleavings (source-line "
-              "granularity, lines not mentioning `self` commuted) of small configurations incl. a 3-write packet and "
-              "re-entrant sends before/after/mid-packet and nested twice; preemption-bounded DFS for 3 threads; seeded "
+              "per-thread order) must agree. Families: (a) path-exhaustive DFS with replay over ALL interleavings at "
+              "source-line granularity (lines not mentioning `self` are not branched on; of executions differing only "
+              "in the order of steps on different shared objects one is completed, the others are cut as prefixes) of "
+              "2 threads x 1 / (1,2) messages incl. a 3-write packet and re-entrant sends before a write and nested "
+              "twice mid-packet; (b) state-exhaustive DFS (every reachable real state - thread stacks with bytecode "
+              "offsets and locals, queue, lock, harness bookkeeping - expanded once, every transition executed) for "
+              "2x2, 2x3, 3x1, 3x(1,2,1) and re-entrant variants; (c) preemption-bounded DFS for 3 threads; (d) seeded "
               "random schedules of 2-3 threads x 1-3 messages with and without re-entrant sends, uniform and sticky. "
               "distinct = distinct action sequence; non-trivial = more thread switches in the action sequence than a "
               "serial execution has.")
@@ -660,16 +688,19 @@ def correspondence(ctx):
     c.extra["line_access_of__send"] = dict((str(k), sorted(map(list, v)) if v is not None else None)
                                            for k, v in sorted(line_access().items()) if v is None or v)
     batch = Batch(c, ctx)
-    exhaustive_done = {}
-    fams = quick_exhaustive() + (thorough_exhaustive() if ctx.tier == "thorough" else [])
-    for name, conf in fams:
-        n, complete = explore_dfs(batch, "exhaustive:" + name, conf, deadline=t0 + ctx.budget(45, 420))
+    thorough = ctx.tier == "thorough"
+    exhaustive_done, stateful_done, bounded = {}, {}, {}
+    for name, conf in quick_exhaustive() + (thorough_exhaustive() if thorough else []):
+        n, complete = explore_dfs(batch, "exhaustive:" + name, conf, deadline=t0 + ctx.budget(40, 200))
         exhaustive_done[name] = dict(schedules=n, complete=complete)
-    ctx.log("exhaustive families: %s (%.1fs)" % (exhaustive_done, time.time() - t0))
-    bounded = {}
+    ctx.log("path-exhaustive families: %s (%.1fs)" % (exhaustive_done, time.time() - t0))
+    for name, conf in quick_stateful() + (thorough_stateful() if thorough else []):
+        n, complete = explore_dfs(batch, "all-states:" + name, conf, stateful=True, deadline=t0 + ctx.budget(55, 420))
+        stateful_done[name] = dict(executions=n, complete=complete)
+    ctx.log("state-exhaustive families: %s (%.1fs)" % (stateful_done, time.time() - t0))
     for name, conf in bounded_configs()[:ctx.budget(1, 3)]:
         n, complete = explore_dfs(batch, "preemption<=%d:%s" % (ctx.budget(2, 3), name), conf, bound=ctx.budget(2, 3),
-                                  max_runs=ctx.budget(3000, 120000), deadline=t0 + ctx.budget(55, 600))
+                                  max_runs=ctx.budget(3000, 60000), deadline=t0 + ctx.budget(60, 640))
         bounded[name] = dict(schedules=n, complete=complete, bound=ctx.budget(2, 3))
     ctx.log("preemption-bounded families: %s (%.1fs)" % (bounded, time.time() - t0))
     r = Rng(ctx.seed).fork("c12")
@@ -685,12 +716,13 @@ def correspondence(ctx):
         finally:
             run.close()
         done_rand += 1
-        if time.time() - t0 > ctx.budget(75, 780):
+        if time.time() - t0 > ctx.budget(72, 780):
             break
     batch.flush()
     ctx.log("random schedules: %d (%.1fs)" % (done_rand, time.time() - t_rand))
     c.extra["sendlock_type_installed_by_constructor"] = real_lock_is_reentrant()[1]
     c.extra["exhaustive_families"] = exhaustive_done
+    c.extra["state_exhaustive_families"] = stateful_done
     c.extra["preemption_bounded_families"] = bounded
     c.extra["random_schedules"] = done_rand
     c.extra["traces_validated_against_impl"] = c.evaluations
